@@ -114,7 +114,9 @@ PROPS['C02'] = dict(level='fault_enumeration',
   bounds='sequential; one injected throw per run at each of the first 10 fault sites (enumerated) (copies/moves of stored values, connect of child senders); catalogue of 10 expression shapes',
   outside='two simultaneous faults; allocation failure; interleavings where a completion destroys the operation on another thread (see C19/C09)',
   harnesses=[SEQ('fault_%s_k%d' % (n, k), 'C02_faults.cpp', 'h_f_' + n, exc=True, opts=dict(params=[k], max_visits=300, max_rec=8), desc='%s: throw injected at fault site %d%s' % (n, k, ' (no fault)' if k == 99 else '')) for n in
-     ['finally', 'finally_done', 'let_value', 'let_error', 'let_done', 'sequence', 'repeat', 'when_all', 'allocate'] for k in list(range(10)) + [99]])
+     ['finally', 'finally_done', 'let_value', 'let_error', 'let_done', 'sequence', 'repeat', 'when_all', 'allocate'] for k in list(range(10)) + [99]] +
+   [SEQ('lifetime_%s_f%d_p%02d' % (n, f, p), 'C02_lifetime.cpp', 'h_lt_' + n, opts=dict(params=[f, p], max_rec=3), tier=('quick' if n == 'stop_when' else 'thorough'), desc='%s: receiver frees the operation in its completion; leaves cancel inline per flags %d; event order %d (base 3: complete leaf0, leaf1, stop)' % (n, f, p))
+    for n in ('when_all', 'stop_when', 'let_value', 'finally', 'sequence') for f in ((0, 2) if n == 'stop_when' else (0,)) for p in range(27)])
 
 CFGS = [('c++17', ['NDEBUG']), ('c++20', ['NDEBUG']), ('c++17', ['UNDEBUG']), ('c++20', ['UNDEBUG']),
         ('c++17', ['NDEBUG', 'UNIFEX_ENABLE_CONTINUATION_VISITATIONS=1']), ('c++20', ['UNDEBUG', 'UNIFEX_ENABLE_CONTINUATION_VISITATIONS=1'])]
